@@ -46,6 +46,7 @@ def run(ctx):
     from checks import realkill
     import vlib
     extra = realkill.deaths(ctx)
+    extra.update(realkill.churn_deaths(ctx))
     ed = exit_differential(ctx, 300 if ctx.tier == "quick" else 3000)
     extra["exit_code_formatting_differential"] = ed
     if ed["n_against_the_property"]:
